@@ -1,6 +1,7 @@
 import LenaModel.DriverUtil
 import LenaModel.Model.C17
 import LenaModel.Model.C17Sess
+import LenaModel.Model.C17Ext
 /-! Model driver for C17.  Requests:
   {"op":"slice","start":i|null,"stop":i|null,"step":i|null,"xs":[ints]}  -> {"r":[..]} | {"e":"LenaValueError"|"IndexError"}
   {"op":"pyslice",...same, step ≥ 1 or null}                             -> {"r":[..]}
@@ -14,7 +15,17 @@ import LenaModel.Model.C17Sess
   {"op":"session","el":"reverse","ops":OPS} {"op":"session","el":"chunks","cs":n,"ops":OPS} {"op":"session","el":"chain","xss":[[..],..],"ops":OPS}
   {"op":"slice_inst","start":..,"stop":..,"step":..,"ops":[ [ints] (= list(run(iter(flow)))) | v (= fill_into(el, v)) ]}
         -> {"ev":[{"r":[..]}|{"e":..}|"filled"|"skipped"|"stop"|"AttributeError",..]} | {"e":"LenaValueError"}
-  {"op":"fill_trace","start":n,"stop":n|null,"step":n,"xs":[..]}            -> {"out":["filled"|"skipped"|"stop",..],"r":[filled values]} -/
+  {"op":"fill_trace","start":n,"stop":n|null,"step":n,"xs":[..]}            -> {"out":["filled"|"skipped"|"stop",..],"r":[filled values]}
+ every session reply also has the spec-side projections the theorems speak about: "vals":[valuesOf g ..], "nexts":[nextsOf g ..],
+ "starts":n, "pred":[genTake next (nextsOf g) (generator of a fresh instance) ..]; slice_inst also "state":[_index,_next_index+1],
+ "fo":fillOutcomes, "ft":fillTrace over fillValues.
+ the rest of the file (`Model/C17Ext`):
+  {"op":"slice_args","args":[i|null,..],"xs":[..],"ms":n}   -> {"r":[..],"repr":s} | {"e":"LenaValueError"|"IndexError"|"OverflowError"|"TypeError","repr":s}
+  {"op":"spec","start":..,"stop":..,"step":..}               -> {"goodstep":b,"hasneg":b}
+  {"op":"eqrepr","el":"slice"|"countfrom"|"reverse"|"chain","a":X,"b":X} -> {"eq":b,"repr":[s,s]}   (X: args / [start,step] / null / [[..],..])
+  {"op":"init_check","el":"countfrom","num":[b,b]} | {"op":"init_check","el":"chunks","callable":b} -> {"r":"ok"|"TypeError"|"LenaTypeError"}
+  {"op":"chunks_c","cs":n,"xs":[..],"container":"tuple"|"list"|"star"|"set"} -> {"r":[{"k":"tuple"|"list"|"set","v":[..]},..]}
+  {"op":"session","el":"chain_shared","xss":[[..],..],"ops":OPS} -> {"ev":..,"all":[allValues],"left":[what the iterators still hold]} -/
 open Lean Lena.Drv Lena.C17
 
 def outJson : Option (Out Int) → Json
@@ -39,8 +50,17 @@ def evJson {β : Type} (f : β → Json) : GenEv β → Json
 
 def sessReply {σ ι γ β : Type} (E : GenElem σ ι γ β) (s : Sess σ γ) (ops : List (GenOp ι))
     (f : β → Json) (rest : γ → List β) : Json :=
-  Json.mkObj [("ev", ofList (evJson f) (sessEvents E s ops)),
-    ("rest", ofList (fun g => ofList f (rest g)) (sessAfter E s ops).gens)]
+  let evs := sessEvents E s ops
+  let starts := startsOf ops
+  let ids := List.range starts.length
+  Json.mkObj [("ev", ofList (evJson f) evs),
+    ("rest", ofList (fun g => ofList f (rest g)) (sessAfter E s ops).gens),
+    ("vals", ofList (fun g => ofList f (valuesOf g evs)) ids),
+    ("nexts", ofList (fun g => ofNat (nextsOf g evs)) ids),
+    ("starts", ofNat starts.length),
+    ("pred", ofList (fun g => match starts[g]? with
+        | some x => ofList f (genTake E.next (nextsOf g evs) (E.spawn s.inst x).1)
+        | none => Json.null) ids)]
 
 def sessionOp (j : Json) : Json :=
   match (arr? (getD j "ops")).bind (fun a => a.toList.mapM genOp?) with
@@ -68,6 +88,14 @@ def sessionOp (j : Json) : Json :=
       match (arr? (getD j "xss")).bind (fun a => a.toList.mapM intList?) with
       | some xss => sessReply chainElem { inst := xss, gens := [] } (unitOps ops) ofInt id
       | none => err "bad chain session args"
+    | some "chain_shared" =>
+      match (arr? (getD j "xss")).bind (fun a => a.toList.mapM intList?) with
+      | some xss =>
+        let s0 : ChainSh Int := { its := xss, gens := [] }
+        let evs := s0.events (unitOps ops)
+        Json.mkObj [("ev", ofList (evJson ofInt) evs), ("all", ofIntList (allValues evs)),
+          ("left", ofIntList (s0.after (unitOps ops)).its.flatten)]
+      | none => err "bad chain_shared session args"
     | _ => err "unknown session element"
 
 /-- an item of the `slice_inst` OPS: a number is `fill_into(el, v)`, a list of integers is a `run` -/
@@ -85,6 +113,33 @@ def sliceEvJson : SliceEv Int → Json
   | .ran o => outJson o
   | .fill o => fillOutJson o
   | .attributeError => "AttributeError"
+
+def chunkJson : Chunk → Json
+  | .tuple xs => Json.mkObj [("k", "tuple"), ("v", ofIntList xs)]
+  | .list xs => Json.mkObj [("k", "list"), ("v", ofIntList xs)]
+  | .set xs => Json.mkObj [("k", "set"), ("v", ofIntList xs)]
+
+def eqReprOp (j : Json) : Json :=
+  let a := getD j "a"
+  let b := getD j "b"
+  match str? (getD j "el") with
+  | some "slice" =>
+    match (arr? a).bind (fun x => x.toList.mapM optInt), (arr? b).bind (fun x => x.toList.mapM optInt) with
+    | some x, some y => Json.mkObj [("eq", sliceEq x y), ("repr", Json.arr #[sliceRepr x, sliceRepr y])]
+    | _, _ => err "bad eqrepr slice args"
+  | some "countfrom" =>
+    match intList? a, intList? b with
+    | some [a1, a2], some [b1, b2] =>
+      let x : CountFromInst := ⟨a1, a2⟩
+      let y : CountFromInst := ⟨b1, b2⟩
+      Json.mkObj [("eq", countFromEq x y), ("repr", Json.arr #[countFromRepr x, countFromRepr y])]
+    | _, _ => err "bad eqrepr countfrom args"
+  | some "reverse" => Json.mkObj [("eq", reverseEq), ("repr", Json.arr #[reverseRepr, reverseRepr])]
+  | some "chain" =>
+    match (arr? a).bind (fun x => x.toList.mapM intList?), (arr? b).bind (fun x => x.toList.mapM intList?) with
+    | some x, some y => Json.mkObj [("eq", chainEq x y), ("repr", Json.arr #[chainRepr x, chainRepr y])]
+    | _, _ => err "bad eqrepr chain args"
+  | _ => err "bad eqrepr element"
 
 def handle (j : Json) : Json :=
   match str? (getD j "op") with
@@ -129,7 +184,15 @@ def handle (j : Json) : Json :=
     | some a, some b, some s, some ops =>
       match mkSliceInst a b s with
       | none => Json.mkObj [("e", "LenaValueError")]
-      | some c => Json.mkObj [("ev", ofList sliceEvJson (c.events ops))]
+      | some c =>
+        let evs := c.events ops
+        let fin := c.after ops
+        let ft : List FillOut := match c.kind with
+          | .islice _ b' s' => fillTrace b' s' c.fill (fillValues ops)
+          | _ => []
+        Json.mkObj [("ev", ofList sliceEvJson evs),
+          ("state", Json.arr #[ofNat fin.fill.index, ofNat fin.fill.nextIndex1]),
+          ("fo", ofList fillOutJson (fillOutcomes evs)), ("ft", ofList fillOutJson ft)]
     | _, _, _, _ => err "bad slice_inst args"
   | some "fill_trace" =>
     match nat? (getD j "start"), optInt (getD j "stop"), nat? (getD j "step"), intList? (getD j "xs") with
@@ -137,6 +200,51 @@ def handle (j : Json) : Json :=
       let outs := fillTrace (b.map Int.toNat) s (fillInit a) xs
       Json.mkObj [("out", ofList fillOutJson outs), ("r", ofIntList (filledOf xs outs))]
     | _, _, _, _ => err "bad fill_trace args"
+  | some "slice_args" =>
+    match (arr? (getD j "args")).bind (fun a => a.toList.mapM optInt), intList? (getD j "xs"), nat? (getD j "ms") with
+    | some args, some xs, some ms =>
+      let rep : Json := sliceRepr args
+      match sliceOfArgs ms args with
+      | none => Json.mkObj [("e", "TypeError"), ("repr", rep)]
+      | some k =>
+        match sliceRunMS ms k xs with
+        | none => Json.mkObj [("e", "LenaValueError"), ("repr", rep)]
+        | some .indexError => Json.mkObj [("e", "IndexError"), ("repr", rep)]
+        | some .overflowError => Json.mkObj [("e", "OverflowError"), ("repr", rep)]
+        | some (.ok ys) => Json.mkObj [("r", ofIntList ys), ("repr", rep)]
+    | _, _, _ => err "bad slice_args args"
+  | some "spec" =>
+    match optInt (getD j "start"), optInt (getD j "stop"), optInt (getD j "step") with
+    | some a, some b, some s => Json.mkObj [("goodstep", goodStepB s), ("hasneg", hasNegB a b)]
+    | _, _, _ => err "bad spec args"
+  | some "eqrepr" => eqReprOp j
+  | some "init_check" =>
+    let out : Option InitOut :=
+      match str? (getD j "el") with
+      | some "countfrom" =>
+        match (arr? (getD j "num")).bind (fun a => a.toList.mapM bool?) with
+        | some [x, y] => some (countFromInit x y)
+        | _ => none
+      | some "chunks" => (bool? (getD j "callable")).map rcbInit
+      | _ => none
+    match out with
+    | some .ok => Json.mkObj [("r", "ok")]
+    | some .typeError => Json.mkObj [("r", "TypeError")]
+    | some .lenaTypeError => Json.mkObj [("r", "LenaTypeError")]
+    | none => err "bad init_check args"
+  | some "chunks_c" =>
+    match nat? (getD j "cs"), intList? (getD j "xs"), str? (getD j "container") with
+    | some cs, some xs, some c =>
+      let cont : Option (Container Int Chunk) := match c with
+        | "tuple" => some tupleContainer
+        | "list" => some listContainer
+        | "star" => some starContainer
+        | "set" => some setContainer
+        | _ => none
+      match cont with
+      | some k => Json.mkObj [("r", ofList chunkJson (runningChunkByC k cs xs))]
+      | none => err "bad container"
+    | _, _, _ => err "bad chunks_c args"
   | _ => err "unknown op"
 
 def main : IO Unit := run handle
